@@ -96,3 +96,21 @@ def mval(m, e):
 def parse_frac(s):
     n, d = s.split('/') if '/' in s else (s, '1')
     return Fraction(int(n), int(d))
+
+def derived_statics(I):
+    """all `static X: Derived` names in the MIR (the unit vocabulary, regenerated on every run)"""
+    out = []
+    for k, bl in I.bodies.items():
+        for b in bl:
+            if b.kind == 'static' and b.ret and b.ret.strip().endswith('Derived'): out.append(k)
+    return sorted(out)
+
+def new_powers(I):
+    from models.coll import MapV
+    return VStruct('powers::Powers', [MapV('unit::Unit')])
+def read_powers(I, p):
+    p = deref(I, p)
+    return [(unit_name(I, e[0]), e[1].val.v) for e in p.items[0].entries]
+def vtable_of(I, static_name):
+    d = I.get_static(static_name).val
+    return I.read_ref(d.items[1])      # DerivedVtable { powers, format, conversion }
